@@ -428,6 +428,7 @@ let rec is_prefix a b = match a, b with
   | _ -> false
 
 let victims_ref : int list ref = ref []
+let budget_exhausted : bool ref = ref false
 let last_annot : string ref = ref ""
 let compatible (exp : ((int * string list) list * string list) option) (os : obs list) : bool =
   let os = List.filter (function BCall (l, _) -> not (List.mem (int_of_nat l) !victims_ref) | _ -> true) os in
@@ -507,8 +508,11 @@ let line_outcomes env (st0 : state) line (expected : string option) : (state * s
       match q with
       | [] -> k st acc
       | _ ->
-        let key = Hashtbl.hash (st, q, List.length acc) in
-        let full = (st, q, acc) in
+        (* compatibility and the final result depend on the observations only through their canonical form
+           (per-listener sequences, multiset of the rest): memoise on that, not on the interleaved list *)
+        let cacc = canon acc in
+        let key = Hashtbl.hash (st, q, cacc) in
+        let full = (st, q, cacc) in
         if not (List.mem full (Hashtbl.find_all seen key)) then begin
           Hashtbl.add seen key full;
           let n = List.length (heads [] q) in
@@ -542,6 +546,7 @@ let line_outcomes env (st0 : state) line (expected : string option) : (state * s
          drain st1 q (acc @ os) (fun st2 acc2 -> go st2 acc2 rest)
        | EErr e -> add (st, canon (acc @ [BPanic e]), true)) in
   go st0 [] ops;
+  if !budget <= 0 then budget_exhausted := true;
   let ints_s l = String.concat "," (List.map string_of_int l) in
   let annot out =
     if !closings = 1 then
@@ -579,12 +584,18 @@ let run_frp_guided oc (name, lines) =
         let (line, expected) = split_expected raw in
         let saved = (env.alias, env.csinks) in
         let env_of () = env.alias <- fst saved; env.csinks <- snd saved; env in
+        budget_exhausted := false;
         let all = List.concat (List.map (fun st -> line_outcomes (env_of ()) st line expected) !cands) in
         let matching = match expected with
           | Some e -> List.filter (fun (_, out, _) -> out = e) all
           | None -> [] in
         let chosen = if matching <> [] then matching else [List.hd all] in
         let (_, out, stop) = List.hd chosen in
+        (* the search over allowed orders was cut short and found no match: nothing can be concluded for this
+           script (neither agreement nor disagreement); the runner counts it as inconclusive *)
+        let (out, stop) =
+          if matching = [] && expected <> None && !budget_exhausted then ("inconclusive: order search budget exhausted", true)
+          else (out, stop) in
         (* the update-set annotation is computed from the state before the close, which does not depend on the
            order of the deferred transactions of THIS line; with several candidate states it may differ: only
            print it when there is a single candidate *)
